@@ -15,6 +15,26 @@ mantissa · 2^exp2, mantissa odd or zero) — the exact value of the C++ float.
                                                  -> (nothing)   addNet(cells, offsets, minPin, maxPin, weight)
   pen <cutM> <cutE> <n> (<tM> <tE> <sM> <sE>)*n  -> (nothing)   addPenalty(pl, target, strength, cutoff)
   asm                                            -> dim / mat / rhs / init lines of the finalized system
+  apx <nT> (<row> <col> <vM> <vE>)*nT <nR> (<rM> <rE>)*nR
+                                                 -> dim / pat / init lines of the finalized system (exact), then
+                                                    `apx ok <nT> <nR>` if the captured single-precision values are
+                                                    within the derived rounding bound of the model's exact rationals,
+                                                    else `apx bad …` (approximate stream, non-dyadic weights)
+
+Rounding bound of the approximate stream (inputs: placements, offsets, fixed positions, targets are
+small multiples of 1/2, so every position, distance, `max`, `min` and offset difference of the
+assembly is computed exactly in binary32; only operations involving a weight round).  With
+`u = 2^-24` (round to nearest) and `K` = number of rounded operations on the path from the stored
+weight to a matrix entry of the variant (`kOf`: initial star `W/nb` 1; star `W/max` 1; B2B
+`W/(nb-1)`, `/max` 2; clique `2W`, `/(nb(nb-1))`, `/max` 3; light star `W/(nb-1)`, `/max`, `w1+w2` 3;
+penalty `s/max` 1 ≤ K):
+  matrix entry   |v_float − v| ≤ ((1+u)^K − 1) · |v|
+  rhs entry r    |b_float − b| ≤ ((1+u)^(K+1+n_r) − 1) · D_r · 5C
+where `n_r` = number of `rhs_[r] += w·δ` updates (= diagonal triplets of row r before `finalize`),
+each term being one more rounded product and the accumulation at most `n_r` rounded additions,
+`D_r` = sum of the diagonal entries of row r (= Σ w over those updates, exact model values),
+and `|δ| ≤ 5C` with `C` the largest magnitude among placements, offsets, fixed positions and targets
+(`δ` is a difference of two of: a stored offset/position (≤ C), 0, `pos − starPos` (≤ 4C)).
 
 Topology stream (`NetModel::xTopology` / `yTopology` of a `Circuit`):
 
@@ -72,6 +92,58 @@ def parsePen : List String → List (Rat × Rat)
 def showTriplets (ts : List (Nat × Nat × Rat)) : String :=
   " ".intercalate (ts.map fun t => toString t.1 ++ " " ++ toString t.2.1 ++ " " ++ showRat t.2.2)
 
+/-- number of rounded float operations between a stored weight and a matrix entry -/
+def kOf : Mode → Nat
+  | .star0 => 1
+  | .star => 1
+  | .b2b => 2
+  | .clique => 3
+  | .lightStar => 3
+
+/-- `(1 + 2^-24)^k − 1` -/
+def gammaU (k : Nat) : Rat := (1 + 1 / (16777216 : Rat)) ^ k - 1
+
+def qabs (q : Rat) : Rat := if q < 0 then -q else q
+
+def maxAbs (l : List Rat) : Rat := l.foldl (fun m v => if m < qabs v then qabs v else m) 0
+
+/-- largest magnitude among placements, offsets, fixed positions and penalty targets -/
+def coordBound (s : List Rat) (raws : List RawNet) (pen : Option Penalty) : Rat :=
+  let offs := raws.foldl (fun acc r => acc ++ r.pins.map (·.2) ++
+    (match r.fixedMinMax with | some (a, b) => [a, b] | none => [])) []
+  let tg := match pen with | some p => p.target | none => []
+  maxAbs (s ++ offs ++ tg)
+
+def parseTrip : Nat → List String → List (Nat × Nat × Rat) × List String
+  | 0, rest => ([], rest)
+  | k + 1, r :: c :: m :: e :: rest =>
+    let (ts, rest') := parseTrip k rest
+    (((int! r).toNat, (int! c).toNat, dy m e) :: ts, rest')
+  | _, rest => ([], rest)
+
+/-- first index where the two triplet lists differ beyond the bound, if any -/
+def cmpTrip (g : Rat) : Nat → List (Nat × Nat × Rat) → List (Nat × Nat × Rat) → Option String
+  | _, [], [] => none
+  | i, a :: as, b :: bs =>
+    if a.1 ≠ b.1 ∨ a.2.1 ≠ b.2.1 then some ("pattern " ++ toString i)
+    else if g * qabs b.2.2 < qabs (a.2.2 - b.2.2) then some ("mat " ++ toString i)
+    else cmpTrip g (i + 1) as bs
+  | i, _, _ => some ("count " ++ toString i)
+
+def diagStats (mat : List (Nat × Nat × Rat)) (r : Nat) : Nat × Rat :=
+  mat.foldl (fun acc t => if t.1 = r ∧ t.2.1 = r then (acc.1 + 1, acc.2 + qabs t.2.2) else acc) (0, 0)
+
+def cmpRhs (k : Nat) (c5 : Rat) (mat : List (Nat × Nat × Rat)) : Nat → List Rat → List Rat → Option String
+  | _, [], [] => none
+  | r, a :: as, b :: bs =>
+    let st := diagStats mat r
+    if gammaU (k + 1 + st.1) * st.2 * c5 < qabs (a - b) then some ("rhs " ++ toString r)
+    else cmpRhs k c5 mat (r + 1) as bs
+  | r, _, _ => some ("rhscount " ++ toString r)
+
+def showPattern (ts : List (Nat × Nat × Rat)) : String :=
+  " ".intercalate (ts.map fun t => toString t.1 ++ " " ++ toString t.2.1)
+
 def showNet (n : ColoVerif.NetAsm.Net) : String :=
   "tnet " ++ showRat n.weight ++ " " ++ toString n.pins.length ++
     String.join (n.pins.map fun p => " " ++ toString p.1 ++ " " ++ showRat p.2)
@@ -93,6 +165,24 @@ def step (s : St) : List String → St × List String
          ("mat " ++ toString sys.mat.length ++ " " ++ showTriplets sys.triplets).trimAscii.toString,
          ("rhs " ++ " ".intercalate (sys.rhs.map showRat)).trimAscii.toString,
          ("init " ++ " ".intercalate (sys.initial.map showRat)).trimAscii.toString])
+  | "apx" :: nT :: rest =>
+    let pre := assemble s.mode s.nbCells s.raws.reverse s.pl s.eps s.pen
+    let sys := finalize pre
+    let (ts, rest') := parseTrip (int! nT).toNat rest
+    let rhs := match rest' with | _ :: r => parseDy r | [] => []
+    let k := kOf s.mode
+    let c5 := 5 * coordBound s.pl s.raws s.pen
+    let verdict :=
+      match cmpTrip (gammaU k) 0 ts sys.triplets with
+      | some e => "apx bad " ++ e
+      | none =>
+        match cmpRhs k c5 pre.mat 0 rhs sys.rhs with
+        | some e => "apx bad " ++ e
+        | none => "apx ok " ++ toString ts.length ++ " " ++ toString rhs.length
+    (s, ["dim " ++ toString sys.nbCells ++ " " ++ toString sys.matSize,
+         ("pat " ++ toString sys.mat.length ++ " " ++ showPattern sys.triplets).trimAscii.toString,
+         ("init " ++ " ".intercalate (sys.initial.map showRat)).trimAscii.toString,
+         verdict])
   | ["topo", ax] =>
     let a : Axis := if ax = "y" then .y else .x
     let nets := topology a s.circ
